@@ -157,3 +157,37 @@ pub fn is_exhausted(p: &str) -> bool {
 pub fn f12_via_bytes(a: &Fp12) -> F12 {
     sm9::f12_from_bytes(&a.to_bytes_be())
 }
+
+/// named Jacobian Z values for key objects: G1 names {"1","2","p-1","seed"}, G2 names {"1","fp:2","fp:p-1","fp:seed","imag:1","imag:seed","generic"}
+pub fn z1_named(name: &str, seed: u64) -> BigUint {
+    let p = &sm9::params().p;
+    match name {
+        "1" => BigUint::one(),
+        "2" => BigUint::from(2u32),
+        "p-1" => p - 1u32,
+        _ => refmodels::util::SplitMix::new(seed, "z1named").nonzero_below(p),
+    }
+}
+pub fn z2_named(name: &str, seed: u64) -> E2 {
+    let p = &sm9::params().p;
+    let mut g = refmodels::util::SplitMix::new(seed, "z2named");
+    let (a, b) = (g.nonzero_below(p), g.nonzero_below(p));
+    match name {
+        "1" => (BigUint::one(), BigUint::zero()),
+        "fp:2" => (BigUint::from(2u32), BigUint::zero()),
+        "fp:p-1" => (p - 1u32, BigUint::zero()),
+        "fp:seed" => (a, BigUint::zero()),
+        "imag:1" => (BigUint::zero(), BigUint::one()),
+        "imag:seed" => (BigUint::zero(), b),
+        _ => (a, b),
+    }
+}
+pub const Z1_NAMES: [&str; 4] = ["1", "2", "p-1", "seed"];
+pub const Z2_NAMES: [&str; 7] = ["1", "fp:2", "fp:p-1", "fp:seed", "imag:1", "imag:seed", "generic"];
+/// parse "…/Zq=<name>/Zp=<name>" out of a tag
+pub fn z_names(tag: &str) -> Option<(String, String)> {
+    let i = tag.find("Zq=")?;
+    let rest = &tag[i + 3..];
+    let j = rest.find("/Zp=")?;
+    Some((rest[..j].to_string(), rest[j + 4..].to_string()))
+}
